@@ -118,5 +118,5 @@ package gateway
 // is not supported): the namespace handed to the cross-namespace gate is the gateway's
 //@ func (*converter).readCertRef
 //@   props C09
-//@   at call GetTLSSecretPath#1 assert own-ns: $arg1 == namespace && $arg2 == certRef.Name
+//@   at call GetTLSSecretPath#1 assert own-ns: $arg1 == old(namespace) && $arg2 == certRef.Name
 //@ end
